@@ -130,7 +130,7 @@ func (w *CronWorker) Work() {
 	var scheduled uint64
 	for {
 		// Get the next job config that is due for scheduling, otherwise return early.
-		key, ts, ok := w.schedule.Pop(Clock.Now())
+		key, ts, ok := w.schedule.Pop(now)
 		if !ok {
 			break
 		}
